@@ -2,7 +2,7 @@
 import json
 import os
 
-from . import decode, gen_ae, gen_chunker, gen_precond, gen_range, gen_serve
+from . import decode, gen_ae, gen_chunker, gen_mp, gen_precond, gen_range, gen_serve
 
 # ---------------------------------------------------------------------------------------
 # units
@@ -48,12 +48,14 @@ def unit_range():
 def _serve_gen(hdir, tier):
     gen_serve.generate(tier, os.path.join(hdir, "serve_gen.rs"), os.path.join(hdir, "serve_meta.json"))
     gen_precond.generate(tier, os.path.join(hdir, "precond_gen.rs"), os.path.join(hdir, "precond_meta.json"))
+    gen_mp.generate(tier, os.path.join(hdir, "mp_gen.rs"), os.path.join(hdir, "mp_meta.json"))
 
 
 def _serve_meta(hdir):
     return {
         "serve": json.load(open(os.path.join(hdir, "serve_meta.json"))),
         "precond": json.load(open(os.path.join(hdir, "precond_meta.json"))),
+        "mp": json.load(open(os.path.join(hdir, "mp_meta.json"))),
     }
 
 
@@ -62,19 +64,30 @@ def _serve_decode(short, vals, meta):
         return decode.decode_serve_cfg(meta["serve"][short], vals)
     if short in meta["precond"]:
         return decode.decode_precond(meta["precond"][short], vals)
+    if short in meta["mp"]:
+        return decode.decode_mp(meta["mp"][short], vals)
     return None
 
 
 KANI_LIGHT = ["--no-memory-safety-checks", "--no-assertion-reach-checks", "-Z", "unstable-options"]
 
 
-def unit_serve(select, panic_tags=("C13",), precond=False):
-    """select(cfg) -> bool picks generated serve_cfg instances; precond adds the precond_gNN groups."""
+PREP_UNITS = {"quick": ["prep_unit_n2_noincl", "prep_unit_n2_h1", "prep_unit_n2_h2"],
+              "thorough": ["prep_unit_n2_noincl", "prep_unit_n2_h0", "prep_unit_n2_h1", "prep_unit_n2_h2", "prep_unit_n3_h1"]}
+
+
+def unit_serve(select, panic_tags=("C13",), precond=False, mp=None, prep=False):
+    """select(cfg) -> bool picks generated serve_cfg instances; precond adds the precond_gNN groups;
+    mp(cfg) -> bool picks one-poll instances of the MultipartStream state machine."""
 
     def harnesses(tier, meta):
-        hs = ["serving::verif_h::gen::" + n for n, c in sorted(meta["serve"].items()) if select(c)]
+        hs = ["serving::verif_h::gen::" + n for n, c in sorted(meta["serve"].items()) if select and select(c)]
         if precond:
             hs += ["serving::verif_h::pgen::" + n for n in sorted(meta["precond"])]
+        if mp:
+            hs += ["serving::verif_h::mpgen::" + n for n, c in sorted(meta["mp"].items()) if mp(c)]
+        if prep:
+            hs += ["serving::verif_h::" + n for n in PREP_UNITS[tier]]
         return hs
 
     return {
@@ -88,6 +101,8 @@ def unit_serve(select, panic_tags=("C13",), precond=False):
         "panic_tags": list(panic_tags),
         "extra": KANI_LIGHT,
         "weight": 4,
+        # the one-poll multipart instances and the precondition groups are small problems
+        "weight_of": lambda h: 1 if "::mpgen::" in h else 4,
         "mem_kb": 30_000_000,
         "timeout": {"quick": 1500, "thorough": 3600},
     }
@@ -225,7 +240,7 @@ def quick_cap(sel, n):
 
 PROPS["C01"] = {
     "units": lambda tier, seed: [
-        unit_serve(g("full", "single", "multi", "unsat", "m405", methods=("GET", "POST", "EXT"), ir=("absent",))),
+        unit_serve(g("full", "single", "multi", "unsat", "m405", methods=("GET", "POST", "EXT"), ir=("absent",)), mp=lambda c: True, prep=True),
         unit_body(["exactlen_honour"]),
     ],
     "explanation": "serve() is executed for every structural request/entity configuration generated by vlib/gen_serve.py "
@@ -298,7 +313,7 @@ PROPS["C05"] = {
 }
 
 PROPS["C06"] = {
-    "units": lambda tier, seed: [unit_serve(g("multi"))],
+    "units": lambda tier, seed: [unit_serve(g("multi"), mp=lambda c: True, prep=True)],
     "explanation": "serve() with two (thorough: three) symbolic satisfiable ranges (overlapping, adjacent, duplicated, out of order all "
     "allowed), entity headers 0..2, with/without matching If-Range: Content-Type, absence of top-level Content-Range, and the "
     "whole frame sequence (part header bytes compared field by field, entity bytes position by position, closing delimiter) "
@@ -357,7 +372,7 @@ PROPS["C12"] = {
     "units": lambda tier, seed: [
         unit_body(["body_from", "exactlen_honour"]),
         unit_chunker(ch_c12),
-        unit_serve(lambda c: c["group"] in ("full", "multi") and c["method"] == "GET" and c["ir"] == "absent" and c["nhdr"] <= 1),
+        unit_serve(lambda c: c["group"] in ("full", "multi") and c["method"] == "GET" and c["ir"] == "absent" and c["nhdr"] <= 1, mp=lambda c: True),
     ],
     "explanation": "size_hint()/is_end_stream() are sampled before every poll in the body, chunker and serve harnesses: exact hints equal announced minus "
     "delivered; chunker hints bracket what is still delivered on a clean end; nothing follows is_end_stream().",
@@ -437,6 +452,7 @@ PROPS["C20"] = {
     "units": lambda tier, seed: [
         unit_body(["exactlen_fault", "exactlen_honour", "body_from"], panic_tags=("C13", "C20")),
         unit_chunker(ch_c20, panic_tags=("C13", "C20")),
+        unit_serve(None, panic_tags=("C13", "C20"), mp=lambda c: c["ev"] == "e" or c["state"] >= 2 * c["n"]),
     ],
     "explanation": "After the first terminal event every harness keeps polling (3 more polls): no data, no panic, for the length-checking stream under "
     "arbitrary inner streams that stay finished once finished, for fixed bodies and for the chunker after clean end and abort.",
